@@ -571,6 +571,58 @@ class Run:
             self.violations.append({"what": "history %d of the registry stress run has no linearization (stuck at event %d)" % (h, at), "replay": rp})
         os.remove(path)
 
+    # -- the WireMachine design model and its behaviours (direction A) ---------------------------
+    def wm_values(self):
+        vd = self.build()
+        vals = os.path.join(self.scratch, "wm-values-%d.ndjson" % self.seed)
+        if not os.path.exists(vals):
+            p = subprocess.run([vd, "values", "-wm", "-seed", str(self.seed), "-out", vals], capture_output=True, text=True,
+                               env=dict(os.environ, VERIF_SCHEMA=SCHEMA))
+            if p.returncode != 0:
+                raise Broken("values -wm failed: " + p.stderr[-1500:])
+        return vals
+
+    def wire_model(self, cfg, expect="ok", note=""):
+        return self.model("MCWire.tla", cfg, expect=expect, env={"VERIF_VALUES": self.wm_values()}, note=note)
+
+    def behaviour_replay(self, cfg, sample=None, note=""):
+        import random
+        vals = self.wm_values()
+        r = self.model("MCWire.tla", cfg, env={"VERIF_VALUES": vals}, note="behaviour export for direction A " + note)
+        behs = [parse_tla_string(x) for x in tlc_prints(r["out"], "BEHAVIOUR")]
+        if not behs:
+            raise Broken("no behaviour exported by %s" % cfg)
+        total = len(behs)
+        if sample and sample < total:
+            random.Random(self.seed).shuffle(behs)
+            behs = behs[:sample]
+        vd = self.build()
+        inp = os.path.join(self.scratch, "beh-%s.ndjson" % cfg)
+        open(inp, "w").write("\n".join(behs) + "\n")
+        t0 = time.time()
+        p = subprocess.run([vd, "replay", "-values", vals, "-in", inp, "-out", inp + ".res"], capture_output=True, text=True, timeout=3600,
+                           env=dict(os.environ, VERIF_SCHEMA=SCHEMA))
+        if p.returncode != 0:
+            raise Broken("replay failed: " + p.stderr[-1500:])
+        results = [json.loads(l) for l in open(inp + ".res")]
+        bad = [x for x in results if x["verdict"] != "ok"]
+        steps = sum(len(json.loads(b)) for b in behs)
+        self.cov["replay_runs"].append({"model": "MCWire.tla/" + cfg, "behaviours_exported": total, "behaviours_replayed": len(results),
+                                        "steps_compared": steps, "mismatches": len(bad), "wall_s": round(time.time() - t0, 1)})
+        self.cov["traces_validated_against_impl"] += len(results)
+        self.cov["evaluations"] += steps
+        self.cov["distinct_nontrivial"] += len(set(behs))
+        if len(self.cov["samples"]) < 4:
+            self.cov["samples"].append({"behaviour": [compact_event(x) for x in json.loads(behs[0])]})
+        log("  replay %-24s %6d of %d behaviours (%d steps) executed on the real types: mismatches=%d (%.1fs)" %
+            (cfg, len(results), total, steps, len(bad), time.time() - t0))
+        for x in bad[:5]:
+            if len(self.violations) < 5:
+                rp = self.write_replay({"kind": "behaviour", "why": x["why"], "step": x["step"], "behaviour": x["behaviour"],
+                                        "values": [json.loads(l) for l in open(vals)]})
+                self.violations.append({"what": "model behaviour, step %d: %s" % (x["step"], x["why"]), "replay": rp})
+        return len(bad)
+
     # -- C20 -------------------------------------------------------------------------------------
     def parallel(self, driver, n, goroutines=16, rounds=1, types=None, seed_off=0, small=False):
         """the driver's histories run alone and then by many goroutines at once (race detector on);
